@@ -8,9 +8,11 @@
 (S->I) every scenario executed on the real loader; metamodel._tx_model_repository contents after the
        failure and outcome/identities of the repaired reload compared with the TLC behaviours;
 (I->S) seeded-random sessions with faults recorded and validated by TLC (TraceLoaderRepo.tla).
-Main models from files and from strings without file name (GlobalRepo providers, import-less models).
+Main models from files, from strings without file name (GlobalRepo providers, import-less models) and
+loaded into a repository owned by the application (GlobalRepo.load_models_in_model_repo).
 Deviation clauses NoCleanupOnModelProcessorFailure (F-C18-1, fixed) and
-NoCleanupOnStringModelProcessorFailure (F-C18-2: the same defect on the model_from_str path).
+NoCleanupOnStringModelProcessorFailure (F-C18-2, fixed) and NoCleanupOfApplicationRepository (F-C18-3: a
+model processor failing for a model loaded into an application-owned repository).
 """
 from ..drive import multifile as mf
 
